@@ -97,8 +97,32 @@ CtxReplyOk(m, e, r) ==
     /\ e.ctx.height = r.env.height /\ e.ctx.contract = r.env.contract /\ e.ctx.token = r.env.token
     /\ e.ctx.events = (IF m.on = "success" THEN EvTypes(r.events) ELSE <<>>)
     /\ e.ctx.msg_responses = (IF m.on = "success" THEN r.msgresp ELSE 0)
+LegacyHandlerOk(e, r) ==      \* the single reply method of a legacy program is handed the reply as it arrived
+    /\ e.name = "reply" /\ e.second.kind = "reply"
+    /\ e.second.id = r.id /\ e.second.payload = r.payload /\ e.second.gas_used = r.gas_used
+    /\ e.second.ok = (r.result = "ok") /\ e.second.events = (IF r.result = "ok" THEN r.events ELSE 0)
+    /\ e.second.data = (IF r.result = "ok" THEN r.data ELSE "") /\ (r.result = "err" => e.second.text = r.err_text)
+    /\ e.ctx.height = r.env.height /\ e.ctx.contract = r.env.contract /\ e.ctx.token = r.env.token
+TrLegacyReplyHandler ==
+    /\ IsEvent("ReplyHandler") /\ st \in {"replied", "handled"} /\ Legacy(Pr)
+    /\ Chk("C06", "a_reply_runs_the_reply_method_once", l, st = "replied")
+    /\ Chk("C06", "reply_entry_point_hands_the_whole_reply_to_the_reply_method", l, LegacyHandlerOk(E, fx.reply))
+    /\ out' = [kind |-> "method", m |-> 1, extracted |-> ""]
+    /\ st' = "handled"
+    /\ UNCHANGED <<pi, sub, rep, fx>>
+TrLegacyReplyReturn ==
+    /\ IsEvent("ReplyReturn") /\ st \in {"replied", "handled"} /\ Legacy(Pr)
+    /\ Chk("C06", "every_reply_reaches_the_reply_method", l, st = "handled")
+    /\ LET m == Pr.methods[1] IN
+       Chk("C06", "reply_entry_point_returns_the_methods_outcome", l,
+           IF m.outcome = "ok" THEN E.verdict = "ok" /\ E.attrs = << <<"h", m.name>>, <<"code", "7">> >> /\ E.mark = m.name
+           ELSE E.verdict = "err" /\ E.err.class = "handler" /\ E.err.code = 7)
+    /\ out' = out
+    /\ st' = "dispatched"
+    /\ UNCHANGED <<pi, sub, rep, fx>>
+
 TrReplyHandler ==
-    /\ IsEvent("ReplyHandler") /\ st \in {"replied", "handled"}
+    /\ IsEvent("ReplyHandler") /\ st \in {"replied", "handled"} /\ ~Legacy(Pr)
     /\ Chk("C07", "a_reply_runs_at_most_one_handler", l, st = "replied")
     /\ LET known == rep.h \in AllHandlers(Pr)
            r == IF known THEN Route(Pr, rep.h, rep.result) ELSE [kind |-> "unknown_id", m |-> 0, second |-> "none"]
@@ -122,7 +146,7 @@ TrReplyHandler ==
 
 (* ---- the dispatcher returns ---------------------------------------------- *)
 TrReplyReturn ==
-    /\ IsEvent("ReplyReturn") /\ st \in {"replied", "handled"}
+    /\ IsEvent("ReplyReturn") /\ st \in {"replied", "handled"} /\ ~Legacy(Pr)
     /\ LET known == rep.h \in AllHandlers(Pr)
            r == IF known THEN Route(Pr, rep.h, rep.result) ELSE [kind |-> "unknown_id", m |-> 0, second |-> "none"]
            rp == fx.reply
@@ -159,12 +183,13 @@ TrPanic ==
     /\ st' = "idle" /\ sub' = NoSub /\ rep' = NoRep /\ out' = NoOut
     /\ UNCHANGED <<pi, fx>>
 
-TStep == TrPanic \/ TrReset \/ TrBuild \/ TrReplyIds \/ TrSubMsgBuilt \/ TrReply \/ TrReplyHandler \/ TrReplyReturn
+TStep == TrLegacyReplyHandler \/ TrLegacyReplyReturn \/ TrPanic \/ TrReset \/ TrBuild \/ TrReplyIds \/ TrSubMsgBuilt \/ TrReply \/ TrReplyHandler \/ TrReplyReturn
 InvariantsHold ==
     /\ Chk("C07", "invariant_C07_DeclaredMethodRuns", l, C07_DeclaredMethodRuns')
     /\ Chk("C07", "invariant_C07_UncoveredOutcomeActsAsNoReply", l, C07_UncoveredOutcomeActsAsNoReply')
     /\ Chk("C07", "invariant_C07_UnknownIdIsError", l, C07_UnknownIdIsError')
     /\ Chk("C08", "invariant_C08_RequestedRepliesAreHandled", l, C08_RequestedRepliesAreHandled')
+    /\ Chk("C06", "invariant_C06_LegacyReplyAlwaysRuns", l, C06_LegacyReplyAlwaysRuns')
 TNext == TStep /\ InvariantsHold /\ TLCSet(1, l')
 TSpec == TInit /\ [][TNext]_tvars
 
